@@ -166,8 +166,33 @@ func CmdBytes(t *rapid.T, label string, uplink bool, n int) []byte {
 	return b
 }
 
+// withUnknownProprietary replaces, one time in four, up to two payload-less commands of an encoded sequence by a
+// proprietary CID that nobody registers (0xe0..0xff): one octet each, like the commands they replace.
+func withUnknownProprietary(t *rapid.T, label string, uplink bool, b []byte) []byte {
+	if len(b) == 0 || rapid.IntRange(0, 3).Draw(t, label+"prop?") != 0 {
+		return b
+	}
+	cs, err := ref.DecodeCmds(uplink, b, nil)
+	if err != nil {
+		return b
+	}
+	left := 2
+	for i := range cs {
+		if left > 0 && len(cs[i].Vals) == 0 && len(cs[i].Raw) == 0 && ref.SpecFor(uplink, cs[i].CID) == nil && rapid.Bool().Draw(t, label+"prop") {
+			cs[i] = ref.Cmd{CID: 0xe0 + byte(rapid.IntRange(0, 31).Draw(t, label+"propcid"))}
+			left--
+		}
+	}
+	out, err := ref.EncodeCmds(uplink, cs)
+	if err != nil || len(out) != len(b) {
+		return b
+	}
+	return out
+}
+
 // DataOpts restricts DataFrame.
 type DataOpts struct {
+	PropCIDs bool // MAC-command sequences may carry proprietary CIDs (0xe0..0xff) that nobody registers
 	MaxFRM   int  // maximum FRMPayload length (0: 242)
 	MaxTotal int  // maximum length of MHDR|MACPayload (0: unlimited)
 	NoPort0  bool // never put MAC commands on port 0
@@ -193,6 +218,9 @@ func DataFrame(t *rapid.T, mt byte, o DataOpts) *ref.Frame {
 		optsLen = 0 // FPort 0 only without FOpts
 	}
 	f.FOpts = CmdBytes(t, "fopts", up, optsLen)
+	if o.PropCIDs {
+		f.FOpts = withUnknownProprietary(t, "fopts", up, f.FOpts)
+	}
 	room := maxFRM
 	if o.MaxTotal > 0 {
 		if r := o.MaxTotal - 1 - 7 - optsLen - 1; r < room {
@@ -206,6 +234,9 @@ func DataFrame(t *rapid.T, mt byte, o DataOpts) *ref.Frame {
 	case "zero":
 		f.FPort = 0
 		f.FRM = CmdBytes(t, "frmcmds", up, biased(t, "frmlen", 0, room, 0, 1, 15, 16, 17, 222, room))
+		if o.PropCIDs {
+			f.FRM = withUnknownProprietary(t, "frmcmds", up, f.FRM)
+		}
 	case "app":
 		f.FPort = rapid.IntRange(1, 255).Draw(t, "fport")
 		f.FRM = Bytes(t, "frm", biased(t, "frmlen", 0, room, 0, 1, 15, 16, 17, 32, 33, 222, room))
@@ -287,7 +318,7 @@ func AnyFrame(t *rapid.T) *ref.Frame {
 	mt := byte(rapid.IntRange(0, 7).Draw(t, "mtype"))
 	switch {
 	case ref.IsData(mt):
-		return DataFrame(t, mt, DataOpts{})
+		return DataFrame(t, mt, DataOpts{PropCIDs: true})
 	case mt == ref.MTJoinRequest:
 		return JoinRequest(t)
 	case mt == ref.MTJoinAccept:
